@@ -72,7 +72,14 @@ def offset_root(rs):
         return Isotonic(v, densities=(d / d.sum()).tolist(), breaks=br.tolist())
 
     def uni(v):
-        return Uniform(v, start=off + float(rs.uniform(-1, 1)), width=float(rs.choice([0.01, 0.1, 2.0])))
+        if rs.rand() < 0.4:
+            # a leaf FITTED on a column that is constant in its slice and large (a Unix timestamp, an id, a price in cents): the library
+            # itself floors the width at 1e-5, so |start| / width reaches 1e14
+            u = Uniform(v)
+            ts = float(rs.choice([1.6e9, 1.7e9 + float(rs.randint(10 ** 6)), 2.5e7, -4.2e8, 86400.0 * 19000]))
+            u.fit(np.full((int(rs.randint(2, 30)), 1), ts), (ts - 1.0, ts + 1.0))
+            return u
+        return Uniform(v, start=off + float(rs.uniform(-1, 1)), width=float(rs.choice([0.01, 0.1, 2.0, 1e-5])))
     l0 = [iso(0), iso(0)] if rs.rand() < 0.6 else [iso(0), uni(0)]
     w = rs.dirichlet(np.ones(2)).astype(np.float32)
     s0 = Sum(children=l0, weights=(w / w.sum()).astype(np.float32))
